@@ -473,4 +473,8 @@ def obligations(tier):
     for o in (c15.obs_constructor(("n", 1), ("n", 1), sharding=True, eq_keys=("nu", "D")), c15.obs_constructor(("n", 2), ("n", 1))):
         o.name = o.name.replace("C15/", "C09/initial_store/")
         obs.append(o)
+    # an observation "row" is the input, the value and the observed parameters: all three are served from the same window
+    o = c15.obs_alignment(2, 1, ("a", "b"))
+    o.name = o.name.replace("C15/", "C09/observation_rows/")
+    obs.append(o)
     return obs
